@@ -50,7 +50,7 @@ class Transport:
         except OSError as exc:
             _LOGGER.error("Failed writing to transport %s: %s", connection, exc)
             connection.close()
-            protocol.conn_lost_callback()
+            protocol.reconnect(connection)
 
 
 class SyncTransport(Transport):
@@ -104,6 +104,8 @@ class BaseMySensorsProtocol(serial.threaded.LineReader):
         super().__init__()
         self.gateway = gateway
         self.conn_lost_callback = conn_lost_callback
+        self._reconnect_lock = threading.Lock()
+        self._reconnected = None
 
     def __repr__(self):
         """Return the representation."""
@@ -142,8 +144,19 @@ class BaseMySensorsProtocol(serial.threaded.LineReader):
             self.gateway.on_conn_lost(self.gateway, exc)
         if exc:
             _LOGGER.error(exc)
-            self.conn_lost_callback()
+            self.reconnect(self.transport)
         self.transport = None
+
+    def reconnect(self, connection):
+        """Start to reconnect, once per lost connection.
+
+        A failed write and the reader can both notice the same lost connection.
+        """
+        with self._reconnect_lock:
+            if connection is not None and connection is self._reconnected:
+                return
+            self._reconnected = connection
+        self.conn_lost_callback()
 
 
 class AsyncMySensorsProtocol(BaseMySensorsProtocol, asyncio.Protocol):
